@@ -1,0 +1,75 @@
+//! Verification hooks (only compiled with the `verif_hooks` feature).
+//!
+//! The engine calls [`yield_point`] next to awaits that may suspend and
+//! [`preempt_point`] between synchronous steps. Without an installed
+//! controller both return immediately, so behaviour is unchanged. A test
+//! harness running the engine on a single thread installs a controller that
+//! decides, per call, whether the point returns `Pending` once; this lets the
+//! harness interleave tasks (and drop futures) at these points.
+
+use std::{
+    cell::RefCell,
+    future::Future,
+    pin::Pin,
+    rc::Rc,
+    task::{Context, Poll},
+};
+
+/// The kind of a scheduling hook.
+#[derive(Debug, Clone, Copy, PartialEq, Eq, Hash)]
+pub enum PointKind {
+    /// Next to an existing await that may legitimately return `Pending`.
+    Yield,
+    /// Between synchronous statements (models thread preemption).
+    Preempt,
+}
+
+/// Decides whether the point with the given tag suspends once.
+pub type Controller = Rc<dyn Fn(&'static str, PointKind) -> bool>;
+
+thread_local! {
+    static CONTROLLER: RefCell<Option<Controller>> =
+        const { RefCell::new(None) };
+}
+
+/// Installs (or removes) the controller of the calling thread.
+pub fn set_controller(controller: Option<Controller>) {
+    CONTROLLER.with(|c| *c.borrow_mut() = controller);
+}
+
+fn decide(tag: &'static str, kind: PointKind) -> bool {
+    let controller = CONTROLLER.with(|c| c.borrow().clone());
+
+    controller.is_some_and(|c| c(tag, kind))
+}
+
+struct YieldOnce(bool);
+
+impl Future for YieldOnce {
+    type Output = ();
+
+    fn poll(mut self: Pin<&mut Self>, cx: &mut Context<'_>) -> Poll<()> {
+        if self.0 {
+            Poll::Ready(())
+        } else {
+            self.0 = true;
+            cx.waker().wake_by_ref();
+
+            Poll::Pending
+        }
+    }
+}
+
+/// A hook next to an await that may suspend (a legitimate cancellation point).
+pub async fn yield_point(tag: &'static str) {
+    if decide(tag, PointKind::Yield) {
+        YieldOnce(false).await;
+    }
+}
+
+/// A hook between synchronous statements (an interleaving point only).
+pub async fn preempt_point(tag: &'static str) {
+    if decide(tag, PointKind::Preempt) {
+        YieldOnce(false).await;
+    }
+}
